@@ -192,33 +192,45 @@ def family_landweber_mono(ctx, r, exact, n, opaque=False):
 
 
 def family_kaczmarz_mono(ctx, r, exact, n, opaque=False):
+    """Consistent system, blocks of DIFFERENT operator norm with per-operator omega_i in
+    (0, 2/|A_i|^2], fixed or RANDOM visiting order (np.random seeded): the distance to the
+    solution never increases, inner step by inner step (true for any order)."""
     import odl
     from odl.solvers import kaczmarz
     d = r.randint(1, 4)
-    m = r.randint(1, 3)
-    mats = [rand_matrix(r, r.randint(1, 3), d, r.random() < 0.2) for _ in range(m)]
+    m = r.randint(1, 4)
+    scales = [1.0, 4.0, 0.25, 2.0]
+    r.shuffle(scales)
+    mats = [rand_matrix(r, r.randint(1, 3), d, r.random() < 0.2) * scales[i] for i in range(m)]
     ops = [odl.MatrixOperator(M) for M in mats]
     xs = sl.dy_vec(r, d, 16, 8)
     rhs = [M.dot(xs) for M in mats]
     u = [r.choice([0.25, 0.5, 1.0, 1.5, 1.999]) for _ in range(m)]
     omega = [ui / smax(M) ** 2 for ui, M in zip(u, mats)]
     x0 = sl.dy_vec(r, d, 16, 8)
+    rand_order = r.random() < 0.5
+    npseed = r.randint(0, 2 ** 31 - 1)
     p = dict(solver='kaczmarz_mono', opkind='x'.join(str(M.shape[0]) for M in mats), x0=x0,
-             fk='-', gk='-', cseed=r.cseed)
+             fk='random' if rand_order else 'fixed', gk='-', cseed=r.cseed, m=m)
     x = unflat(ops[0].domain, x0)
     rec = Recorder()
     n = r.randint(1, 12)
+    np.random.seed(npseed)
     st, _ = guarded(kaczmarz, ops, x, [unflat(o.range, b) for o, b in zip(ops, rhs)], n,
-                    omega=omega, callback=rec, callback_loop='inner')
+                    omega=omega, callback=rec, callback_loop='inner', random=rand_order)
     if st == 'ok':
         err = [float(np.linalg.norm(v - xs)) for v in [x0] + rec.iterates]
         k = mono_violation(err)
         if k is not None:
-            viol(ctx, 'kaczmarz distance to the solution increases ranges={}'.format(p['opkind']),
-                 '|x_{}-x*|={} > |x_{}-x*|={} (inner step)'.format(k + 1, err[k + 1], k, err[k]),
-                 p, n=n, mats=[M.tolist() for M in mats], xs=xs.tolist(), u=u)
-    ctx.case(('oracle', 'kaczmarz_mono', p['opkind']) if st == 'ok' else None)
-    ctx.hit('oracle/kaczmarz_error')
+            viol(ctx, 'kaczmarz distance to the solution increases ranges={} order={}'.format(
+                p['opkind'], p['fk']),
+                '|x_{}-x*|={} > |x_{}-x*|={} (inner step; omega_i*|A_i|^2={}, numpy seed {})'.format(
+                    k + 1, err[k + 1], k, err[k], u, npseed),
+                p, n=n, mats=[M.tolist() for M in mats], xs=xs.tolist(), u=u, npseed=npseed)
+    else:
+        viol(ctx, 'kaczmarz raises order=' + p['fk'], st, p, n=n)
+    ctx.case(('oracle', 'kaczmarz_mono', p['opkind'], p['fk']) if st == 'ok' else None)
+    ctx.hit('oracle/kaczmarz_error/' + p['fk'])
     return []
 
 
@@ -266,6 +278,17 @@ def family_steepestbt(ctx, r, exact, n, opaque=False):
         viol(ctx, 'steepest_descent with BacktrackingLineSearch increases the objective',
              'f(x_{})={} > f(x_{})={}'.format(k + 1, fv[k + 1], k, fv[k]), p, n=n, M=M.tolist(),
              b=b.tolist(), c=c, tau=tau, discount=discount, maxit=maxit)
+    if st != 'ok':
+        # At float-level convergence no representable decrease exists any more: the real line
+        # search then refuses (ValueError, or its `assert fval < fx` when `fx - expected`
+        # rounds to `fx`).  A refusal is not an increase; exact arithmetic (the model) would
+        # go on, so such histories are not tied either.
+        xl = unflat(f.domain, log[-1] if log else x0)
+        g2 = float(f.gradient(xl).norm() ** 2)
+        if g2 < 1e-9 * max(1.0, abs(float(f(xl)))):
+            ctx.case(('oracle', 'steepestbt', 'refused-at-float-convergence'))
+            ctx.hit('oracle/steepestbt/refused-at-float-convergence')
+            return []
     if st != 'ok' and err_kind(st) != 'ValueError':
         viol(ctx, 'steepest_descent with BacktrackingLineSearch raises ' + err_kind(st), st, p, n=n)
     ctx.hit('model/steepestbt/' + ('raised' if st != 'ok' else 'ok'))
@@ -377,12 +400,13 @@ def gen_multi(r, exact):
     import odl
     d = r.randint(1, 3)
     dom = odl.rn(d)
-    m = r.randint(0, 2)
+    m = r.randint(0, 3)
+    equal_rows = r.choice([None, None, r.randint(1, 3)])   # several operators with EQUAL range
     Ls, Gs = [], []
     for i in range(m):
-        k = r.choice(['matrix', 'matrix', 'identity', 'scaled'])
+        k = r.choice(['matrix', 'matrix', 'identity', 'scaled']) if equal_rows is None else 'matrix'
         if k == 'matrix':
-            Li = odl.MatrixOperator(sl.small_int_matrix(r, r.randint(1, 3), d))
+            Li = odl.MatrixOperator(sl.small_int_matrix(r, equal_rows or r.randint(1, 3), d))
         elif k == 'identity':
             Li = odl.IdentityOperator(dom)
         else:
@@ -495,12 +519,36 @@ def strongly_convex_problem(r):
 
 
 def family_optimality(ctx, r, exact, n, opaque=False):
+    """Short budget first; a failure is only reported if it persists with 5x the iterations
+    (so that slow but correct convergence is not an alarm, and the quick tier stays quick)."""
+    base = 300 if ctx.quick else 1500
+    state = r.getstate()
+    sub = core.Ctx(ctx.pid, ctx.tier, ctx.seed)
+    _optimality(sub, r, base)
+    if sub.violations:
+        r.setstate(state)
+        sub = core.Ctx(ctx.pid, ctx.tier, ctx.seed)
+        _optimality(sub, r, 5 * base)
+    ctx.violations.extend(sub.violations)
+    for k, v in sub.extra.items():
+        ctx.extra.setdefault(k, []).extend(v)
+    ctx.case(('test', 'optimality') + tuple(sub.extra.get('_sig', [('?',)])[0]))
+    ctx.extra.pop('_sig', None)
+    ctx.hit('test/optimality(kkt-decay, objective agreement)')
+    return []
+
+
+def _optimality(ctx, r, niter):
     import odl
     S = odl.solvers
     q = strongly_convex_problem(r)
+    others = ['admm', 'dr', 'fb0', 'fbf']
+    if ctx.quick:
+        r.shuffle(others)
+        others = others[:2]
+    tol = 1e-3 if niter < 1000 else 1e-5
     L, f, g, A = q['L'], q['f'], q['g'], q['A']
     nrm = smax(A)
-    niter = 1500 if ctx.quick else 4000
     x0 = sl.dy_vec(r, q['d'], 16, 8)
     p = dict(solver='optimality', opkind='{}x{}{}'.format(q['m'], q['d'], 'ill' if q['ill'] else ''),
              x0=x0, fk='l2sq_t', gk=q['gk'], cseed=r.cseed)
@@ -526,46 +574,147 @@ def family_optimality(ctx, r, exact, n, opaque=False):
         k1 = kkt(x, y)
         ctx.extra.setdefault('kkt_residual_decay(test)', []).append(
             [round(k0, 6), float('{:.3g}'.format(k1))])
-        if not k1 <= 1e-6 * (1 + k0):
+        if not k1 <= tol * 0.1 * (1 + k0):
             viol(ctx, 'pdhg KKT residual does not decay g={} matrix={}'.format(q['gk'], p['opkind']),
                  'KKT residual {} -> {} after {} iterations with tau=sigma=0.95/|L|'.format(
                      k0, k1, niter), p, A=A.tolist(), niter=niter)
     else:
         viol(ctx, 'pdhg fails on a strongly convex problem g=' + q['gk'], st, p, A=A.tolist())
+    # accelerated PDHG: f = |x-a|^2 is 2-strongly convex; g* is 1/2-strongly convex for g = |.-c|^2
     x = unflat(L.domain, x0)
-    st, _ = guarded(S.admm_linearized, x, f, g, L, 0.95 / nrm ** 2, 1.0, niter)
+    st, _ = guarded(S.pdhg, x, f, g, L, niter, tau=tau, sigma=sigma, gamma_primal=r.choice([1.0, 2.0]))
     if st == 'ok':
-        results['admm_linearized'] = flat(x).copy()
-    x = unflat(L.domain, x0)
-    st, _ = guarded(S.douglas_rachford_pd, x, f, [g], [L], niter, tau=1.0 / nrm,
-                    sigma=[1.9 / nrm])
-    if st == 'ok':
-        results['douglas_rachford_pd'] = flat(x).copy()
-    x = unflat(L.domain, x0)
-    st, _ = guarded(S.forward_backward_pd, x, f, [g], [L], zero, 0.95 / nrm, [0.95 / nrm], niter)
-    if st == 'ok':
-        results['forward_backward_pd(h=0)'] = flat(x).copy()
-    x = unflat(L.domain, x0)
-    # f moved to the smooth slot: grad Lipschitz 2, condition 2 min(1/tau,1/sigma) * (1/2) * sqrt(1 - tau sigma |L|^2) > 1
-    t = min(0.4, 0.5 / nrm)
-    s = min(0.4, 0.5 / nrm)
-    st, _ = guarded(S.forward_backward_pd, x, zero, [g], [L], f, t, [s], niter * 2)
-    if st == 'ok':
-        results['forward_backward_pd(h=f)'] = flat(x).copy()
-    if len(results) < 5:
+        results['pdhg(gamma_primal)'] = flat(x).copy()
+    else:
+        viol(ctx, 'pdhg(gamma_primal) fails on a strongly convex problem g=' + q['gk'], st, p,
+             A=A.tolist())
+    if q['gk'] == 'l2sq_t':
+        x = unflat(L.domain, x0)
+        st, _ = guarded(S.pdhg, x, f, g, L, niter, tau=tau, sigma=sigma, gamma_dual=0.5)
+        if st == 'ok':
+            results['pdhg(gamma_dual)'] = flat(x).copy()
+        else:
+            viol(ctx, 'pdhg(gamma_dual) fails on a strongly convex problem', st, p, A=A.tolist())
+    if 'admm' in others:
+        x = unflat(L.domain, x0)
+        st, _ = guarded(S.admm_linearized, x, f, g, L, 0.95 / nrm ** 2, 1.0, niter)
+        if st == 'ok':
+            results['admm_linearized'] = flat(x).copy()
+    if 'dr' in others:
+        x = unflat(L.domain, x0)
+        st, _ = guarded(S.douglas_rachford_pd, x, f, [g], [L], niter, tau=1.0 / nrm,
+                        sigma=[1.9 / nrm])
+        if st == 'ok':
+            results['douglas_rachford_pd'] = flat(x).copy()
+    if 'fb0' in others:
+        x = unflat(L.domain, x0)
+        st, _ = guarded(S.forward_backward_pd, x, f, [g], [L], zero, 0.95 / nrm, [0.95 / nrm],
+                        niter)
+        if st == 'ok':
+            results['forward_backward_pd(h=0)'] = flat(x).copy()
+    if 'fbf' in others:
+        x = unflat(L.domain, x0)
+        # f moved to the smooth slot: grad Lipschitz 2, condition
+        # 2 min(1/tau,1/sigma) * (1/2) * sqrt(1 - tau sigma |L|^2) > 1
+        t = min(0.4, 0.5 / nrm)
+        s = min(0.4, 0.5 / nrm)
+        st, _ = guarded(S.forward_backward_pd, x, zero, [g], [L], f, t, [s], niter * 2)
+        if st == 'ok':
+            results['forward_backward_pd(h=f)'] = flat(x).copy()
+    if len([k for k in results if 'gamma' not in k]) < 1 + len(others):
         viol(ctx, 'a non-smooth solver raises on a strongly convex problem g=' + q['gk'],
              'only {} ran'.format(sorted(results)), p, A=A.tolist())
     vals = {k: obj(v) for k, v in results.items()}
     best = min(vals.values())
     for k, v in sorted(vals.items()):
-        if not v <= best + 1e-5 * (1 + abs(best)):
+        if not v <= best + tol * (1 + abs(best)):
             viol(ctx, '{} does not reach the minimal objective g={} matrix={}'.format(
                 k, q['gk'], p['opkind']),
                 'objective {} after {} iterations, other solvers reach {} ({})'.format(
                     v, niter, best, {a: round(b, 8) for a, b in vals.items()}), p, A=A.tolist(),
                 niter=niter)
-    ctx.case(('test', 'optimality', p['opkind'], q['gk']))
-    ctx.hit('test/optimality(kkt-decay, objective agreement)')
+    ctx.extra.setdefault('_sig', []).append((p['opkind'], q['gk']))
+
+
+def family_optimality_multi(ctx, r, exact, n, opaque=False):
+    """min |x-a|^2 + sum_i g_i(L_i x) with m = 2, 3 operators, equal AND different range spaces:
+    douglas_rachford_pd and forward_backward_pd (operator lists) against pdhg on the stacked
+    problem (BroadcastOperator + SeparableSum) — minimal objective must agree (unique minimiser).
+    LABELLED TEST (convergence is not proved)."""
+    import odl
+    S = odl.solvers
+    d = r.randint(1, 3)
+    m = r.choice([2, 2, 3])
+    equal = r.random() < 0.5
+    rows = r.randint(1, 3)
+    mats = [sl.small_int_matrix(r, rows if equal else r.randint(1, 3), d) for _ in range(m)]
+    if not equal and len(set(M.shape[0] for M in mats)) == 1:
+        mats[-1] = sl.small_int_matrix(r, mats[0].shape[0] % 3 + 1, d)
+    Ls = [odl.MatrixOperator(M) for M in mats]
+    dom = Ls[0].domain
+    gs, gks = [], []
+    for Li in Ls:
+        gk = r.choice(['l1', 'a_l1', 'l2sq_t', 'l1_t'])
+        k = size_of(Li.range)
+        if gk == 'l1':
+            g = S.L1Norm(Li.range)
+        elif gk == 'a_l1':
+            g = r.choice([0.5, 2.0]) * S.L1Norm(Li.range)
+        elif gk == 'l1_t':
+            g = S.L1Norm(Li.range).translated(unflat(Li.range, sl.dy_vec(r, k, 8, 4)))
+        else:
+            g = S.L2NormSquared(Li.range).translated(unflat(Li.range, sl.dy_vec(r, k, 8, 4)))
+        gs.append(g)
+        gks.append(gk)
+    a = unflat(dom, sl.dy_vec(r, d, 16, 8))
+    f = S.L2NormSquared(dom).translated(a)
+    x0 = sl.dy_vec(r, d, 16, 8)
+    nrm = [smax(M) for M in mats]
+    tot = float(np.sqrt(sum(v * v for v in nrm)))
+    niter = 400 if ctx.quick else 2000
+    tol = 1e-3 if niter < 1000 else 1e-5
+    p = dict(solver='optimality_multi', opkind='x'.join(str(M.shape[0]) for M in mats), x0=x0,
+             fk='l2sq_t', gk='+'.join(gks), cseed=r.cseed, m=m)
+
+    def obj(v):
+        xe = unflat(dom, v)
+        return float(f(xe) + sum(g(Li(xe)) for g, Li in zip(gs, Ls)))
+    res = {}
+    zero = S.ZeroFunctional(dom)
+    for attempt in (1, 5):
+        res = {}
+        x = unflat(dom, x0)
+        tau_dr = 1.0 / sum(nrm)
+        st, _ = guarded(S.douglas_rachford_pd, x, f, gs, Ls, niter * attempt, tau=tau_dr,
+                        sigma=[2.0 / (m * tau_dr * v * v) for v in nrm])
+        res['douglas_rachford_pd'] = (st, flat(x).copy())
+        x = unflat(dom, x0)
+        st, _ = guarded(S.forward_backward_pd, x, f, gs, Ls, zero, 0.9 / tot, [0.9 / tot] * m,
+                        niter * attempt)
+        res['forward_backward_pd'] = (st, flat(x).copy())
+        x = unflat(dom, x0)
+        Lstack = odl.BroadcastOperator(*Ls)
+        st, _ = guarded(S.pdhg, x, f, S.SeparableSum(*gs), Lstack, niter * attempt, tau=0.95 / tot,
+                        sigma=0.95 / tot)
+        res['pdhg(stacked)'] = (st, flat(x).copy())
+        vals = {k: obj(v) for k, (st, v) in res.items() if st == 'ok'}
+        best = min(vals.values()) if vals else float('nan')
+        bad = [k for k, v in vals.items() if not v <= best + tol * (1 + abs(best))]
+        if not bad:
+            break
+    for k, (st, v) in sorted(res.items()):
+        if st != 'ok':
+            viol(ctx, '{} raises on a problem with {} operators ranges={} ({})'.format(
+                k, m, p['opkind'], 'equal' if equal else 'different'), st, p,
+                mats=[M.tolist() for M in mats])
+    for k in sorted(bad):
+        viol(ctx, '{} does not reach the minimal objective with {} operators ranges={} g={}'.format(
+            k, m, p['opkind'], p['gk']),
+            'objective {} after {} iterations, the other solvers reach {} ({})'.format(
+                vals[k], niter * attempt, best, {a_: round(b_, 8) for a_, b_ in vals.items()}), p,
+            mats=[M.tolist() for M in mats])
+    ctx.case(('test', 'optimality_multi', p['opkind'], p['gk'], equal))
+    ctx.hit('test/optimality, {} operators, {} ranges'.format(m, 'equal' if equal else 'different'))
     return []
 
 
@@ -587,12 +736,23 @@ def family_proxgrad_descent(ctx, r, exact, n, opaque=False):
     x0 = sl.dy_vec(r, d, 16, 8)
     p = dict(solver='proxgrad_descent', opkind='{}x{}'.format(m, d), x0=x0, fk=fk, gk='lsq',
              gamma=gamma, cseed=r.cseed)
-    niter = 400 if ctx.quick else 2000
+    niter = 200 if ctx.quick else 2000
     x = unflat(Aop.domain, x0)
     rec = Recorder()
     st, _ = guarded(S.proximal_gradient, x, f, g, gamma, niter, callback=rec)
     if st == 'ok':
-        vals = [float(f(unflat(Aop.domain, v)) + g(unflat(Aop.domain, v))) for v in [x0] + rec.iterates]
+        # objective through the real functionals at the ends, numpy in between (speed)
+        bb = flat(b)
+        shift = flat(f.translation) if fk == 'l1_t' else 0.0
+        wgt = {'l1': 1.0, 'a_l1': 0.5, 'zero': 0.0, 'l1_t': 1.0}[fk]
+
+        def Fnp(v):
+            return wgt * np.abs(v - shift).sum() + 0.5 * np.sum((A.dot(v) - bb) ** 2)
+        chk = float(f(unflat(Aop.domain, x0)) + g(unflat(Aop.domain, x0)))
+        if abs(chk - Fnp(x0)) > 1e-9 * (1 + abs(chk)):
+            viol(ctx, 'objective value of f + 1/2|Ax-b|^2 differs from its formula f=' + fk,
+                 'functional {} formula {}'.format(chk, Fnp(x0)), p, A=A.tolist())
+        vals = [float(Fnp(v)) for v in [x0] + rec.iterates]
         k = mono_violation(vals)
         if k is not None:
             viol(ctx, 'proximal_gradient increases the objective f={} gamma*|A|^2<=1'.format(fk),
@@ -627,7 +787,7 @@ def family_f12(ctx, r, exact, n, opaque=False):
     x0 = sl.dy_vec(r, d, 16, 8) + 3.0
     p = dict(solver='f12', opkind='diag{}'.format(d), x0=x0, fk='zero', gk='ind_b', tau=tau,
              cseed=r.cseed)
-    niter = 600
+    niter = 300
     res = {}
     for name in ('forward_backward_pd', 'pdhg'):
         x = unflat(L.domain, x0)
@@ -651,6 +811,341 @@ def family_f12(ctx, r, exact, n, opaque=False):
     return []
 
 
+# ---------------------------------------------------------------------------
+# documented iterations, recomputed independently with numpy (no model involved)
+
+def soft(v, t):
+    return np.sign(v) * np.maximum(np.abs(v) - t, 0.0)
+
+
+def seq_vs_reference(ctx, key, p, impl, ref, rtol=1e-9, **kw):
+    d = sl.arrays_differ(impl, ref, rtol)
+    if d:
+        viol(ctx, key, 'real solver vs documented iteration recomputed with numpy: ' + d, p, **kw)
+        return True
+    return False
+
+
+def family_ref_kaczmarz(ctx, r, exact, n, opaque=False):
+    """x <- x - omega_[k] A_[k]^T (A_[k] x - y_[k]) (docstring of kaczmarz / landweber), several
+    operators of DIFFERENT norm with DIFFERENT omega and rhs, optional projection."""
+    import odl
+    from odl.solvers import kaczmarz, landweber
+    d = r.randint(1, 4)
+    m = r.randint(1, 3)
+    scales = [1.0, 4.0, 0.25, 2.0]
+    r.shuffle(scales)
+    mats = [sl.small_int_matrix(r, r.randint(1, 3), d) * scales[i] for i in range(m)]
+    ops = [odl.MatrixOperator(M) for M in mats]
+    rhs = [sl.dy_vec(r, M.shape[0], 16, 8) for M in mats]
+    omega = [r.choice([0.25, 0.5, 1.0, 1.5]) / smax(M) ** 2 for M in mats]
+    x0 = sl.dy_vec(r, d, 16, 8)
+    proj, pspec = c11.proj_pair(r)
+    n = r.randint(1, 6)
+    use_lw = (m == 1 and r.random() < 0.5)
+    rand_order = (not use_lw) and r.random() < 0.5
+    npseed = r.randint(0, 2 ** 31 - 1)
+    np.random.seed(npseed)
+    orders = [list(np.random.permutation(range(m))) if rand_order else list(range(m))
+              for _ in range(n)]
+    np.random.seed(npseed)
+    p = dict(solver='ref_kaczmarz', opkind='x'.join(str(M.shape[0]) for M in mats), x0=x0,
+             fk=pspec, gk=('landweber' if use_lw else 'kaczmarz') + ('/random' if rand_order else ''),
+             cseed=r.cseed, m=m)
+    x = unflat(ops[0].domain, x0)
+    rec = Recorder()
+    if use_lw:
+        st, _ = guarded(landweber, ops[0], x, unflat(ops[0].range, rhs[0]), n, omega=omega[0],
+                        projection=proj, callback=rec)
+    else:
+        st, _ = guarded(kaczmarz, ops, x, [unflat(o.range, b) for o, b in zip(ops, rhs)], n,
+                        omega=omega, projection=proj, callback=rec, callback_loop='inner',
+                        random=rand_order)
+    ref, v = [], x0.copy()
+    for it in range(n):
+        for i in orders[it]:
+            v = v - omega[i] * mats[i].T.dot(mats[i].dot(v) - rhs[i])
+            if pspec == 'lower:0':
+                v = np.maximum(v, 0)
+            elif pspec.startswith('clamp'):
+                v = np.maximum(np.minimum(v, 1), -1)
+            ref.append(v.copy())
+    what = 'landweber' if use_lw else 'kaczmarz'
+    if st != 'ok':
+        viol(ctx, what + ' raises', st, p, n=n)
+    else:
+        seq_vs_reference(ctx, '{} differs from the documented iteration x - omega_[k] A_[k]^*('
+                         'A_[k] x - y_[k]) ranges={} proj={}'.format(what, p['opkind'], pspec), p,
+                         rec.iterates, ref, n=n, mats=[M.tolist() for M in mats],
+                         rhs=[b.tolist() for b in rhs], omega=omega)
+    ctx.case(('reference', what, p['opkind'], pspec, rand_order))
+    ctx.hit('reference/' + what + ('/random-order' if rand_order else ''))
+    return []
+
+
+def family_ref_osmlem(ctx, r, exact, n, opaque=False):
+    """x <- x / s_i * A_i^T (g_i / (A_i x)) (docstring of mlem / osmlem), several subsets with
+    DIFFERENT sensitivities."""
+    import odl
+    from odl.solvers import mlem, osmlem
+    d = r.randint(1, 3)
+    m = r.randint(1, 3)
+    mats = [np.abs(sl.small_int_matrix(r, r.randint(1, 3), d, 0, 3)) + 0.5 for _ in range(m)]
+    ops = [odl.MatrixOperator(M) for M in mats]
+    data = [np.abs(sl.dy_vec(r, M.shape[0], 16, 4)) + 0.25 for M in mats]
+    x0 = np.abs(sl.dy_vec(r, d, 16, 8)) + 0.125
+    given = r.random() < 0.5
+    sens = [np.abs(sl.dy_vec(r, d, 8, 4)) + 0.25 * (i + 1) for i in range(m)] if given else \
+        [M.T.dot(np.ones(M.shape[0])) for M in mats]
+    n = r.randint(1, 5)
+    use_mlem = (m == 1 and r.random() < 0.5)
+    p = dict(solver='ref_osmlem', opkind='x'.join(str(M.shape[0]) for M in mats), x0=x0,
+             fk='sens' if given else 'default', gk='mlem' if use_mlem else 'osmlem', cseed=r.cseed,
+             m=m)
+    x = unflat(ops[0].domain, x0)
+    rec = Recorder()
+    kw = {'sensitivities': [unflat(ops[0].domain, s) for s in sens]} if given else {}
+    if use_mlem:
+        st, _ = guarded(mlem, ops[0], x, unflat(ops[0].range, data[0]), n, callback=rec, **kw)
+    else:
+        st, _ = guarded(osmlem, ops, x, [unflat(o.range, b) for o, b in zip(ops, data)], n,
+                        callback=rec, **kw)
+    ref, v = [], x0.copy()
+    for _ in range(n):
+        for i in range(m):
+            v = v / sens[i] * mats[i].T.dot(data[i] / mats[i].dot(v))
+            ref.append(v.copy())
+    what = 'mlem' if use_mlem else 'osmlem'
+    if st != 'ok':
+        viol(ctx, what + ' raises', st, p, n=n)
+    else:
+        seq_vs_reference(ctx, '{} differs from the documented iteration x / (A_i^* 1) * A_i^*('
+                         'g_i / A_i x) subsets={} sensitivities={}'.format(what, p['opkind'], p['fk']),
+                         p, rec.iterates, ref, n=n, mats=[M.tolist() for M in mats],
+                         data=[b.tolist() for b in data], sens=[s_.tolist() for s_ in sens])
+    ctx.case(('reference', what, p['opkind'], p['fk']))
+    ctx.hit('reference/' + what)
+    return []
+
+
+def family_ref_pdhg(ctx, r, exact, n, opaque=False):
+    """Chambolle-Pock Algorithm 1 ([CP2011a], cited by the docstring) with theta in (0, 1]:
+    y+ = prox_{sigma g*}(y + sigma L xbar); x+ = prox_{tau f}(x - tau L* y+);
+    xbar+ = x+ + theta (x+ - x); recomputed with the real proximal operators, out of place."""
+    import odl
+    from odl.solvers import pdhg
+    kind, L = sl.operator_zoo(r)
+    F = sl.functional_zoo(r, L.domain, exact=False)
+    G = sl.functional_zoo(r, L.range, exact=False)
+    tau, sigma = sl.pick_step(r, False), sl.pick_step(r, False)
+    theta = r.choice([1.0, 0.5, 0.25, 0.75])
+    # acceleration ([CP2011a] Algorithm 2): theta_n = 1/sqrt(1 + 2 gamma tau_n) (primal) resp.
+    # 1/sqrt(1 + 2 gamma sigma_n) (dual); BOTH steps are rescaled in every iteration
+    accel = r.choice(['none', 'none', 'primal', 'dual'])
+    gam = r.choice([0.5, 1.0, 2.0])
+    x0 = sl.dy_vec(r, size_of(L.domain), 16, 8)
+    n = r.randint(2, 8)
+    p = dict(solver='ref_pdhg', opkind=kind, x0=x0, fk=F.name, gk=G.name, tau=tau, sigma=sigma,
+             theta=theta, cseed=r.cseed)
+    kw = {'theta': theta}
+    if accel == 'primal':
+        kw = {'gamma_primal': gam}
+    elif accel == 'dual':
+        kw = {'gamma_dual': gam}
+    x = unflat(L.domain, x0)
+    rec = Recorder()
+    st, _ = guarded(pdhg, x, F.f, G.f, L, n, tau=tau, sigma=sigma, callback=rec, **kw)
+    xe, xb, y = unflat(L.domain, x0), unflat(L.domain, x0), L.range.zero()
+    ref = []
+    t_n, s_n, th = tau, sigma, theta
+    for _ in range(n):
+        y = G.f.convex_conj.proximal(s_n)(y + s_n * L(xb))
+        xn = F.f.proximal(t_n)(xe - t_n * L.adjoint(y))
+        if accel == 'primal':
+            th = 1 / np.sqrt(1 + 2 * gam * t_n)
+            t_n, s_n = t_n * th, s_n / th
+        elif accel == 'dual':
+            th = 1 / np.sqrt(1 + 2 * gam * s_n)
+            t_n, s_n = t_n / th, s_n * th
+        xb = xn + th * (xn - xe)
+        xe = xn
+        ref.append(flat(xe).copy())
+    variant = 'theta={}'.format(theta) if accel == 'none' else 'gamma_{}={}'.format(accel, gam)
+    if st != 'ok':
+        viol(ctx, 'pdhg raises opkind={} f={} g={} {}'.format(kind, F.name, G.name, variant), st, p,
+             n=n)
+    else:
+        seq_vs_reference(ctx, 'pdhg differs from Chambolle-Pock Algorithm {} ({}) opkind={} f={} '
+                         'g={}'.format(1 if accel == 'none' else 2, variant, kind, F.name, G.name),
+                         p, rec.iterates, ref, n=n, variant=variant)
+    # linearized ADMM: the iteration written in the Notes of admm_linearized
+    from odl.solvers.nonsmooth.admm import admm_linearized
+    x = unflat(L.domain, x0)
+    rec = Recorder()
+    st, _ = guarded(admm_linearized, x, F.f, G.f, L, tau, sigma, n, callback=rec)
+    pf2, pg2 = F.f.proximal(tau), G.f.proximal(sigma)
+    xe, z, u, ref = unflat(L.domain, x0), L.range.zero(), L.range.zero(), []
+    for _ in range(n):
+        xe = pf2(xe - (tau / sigma) * L.adjoint(L(xe) - z + u))
+        z = pg2(L(xe) + u)
+        u = u + L(xe) - z
+        ref.append(flat(xe).copy())
+    if st != 'ok':
+        viol(ctx, 'admm_linearized raises opkind={} f={} g={}'.format(kind, F.name, G.name), st, p, n=n)
+    else:
+        seq_vs_reference(ctx, 'admm_linearized differs from its documented iteration opkind={} f={} '
+                         'g={}'.format(kind, F.name, G.name), p, rec.iterates, ref, n=n)
+    ctx.case(('reference', 'pdhg+admm', kind, F.name, G.name, variant))
+    ctx.hit('reference/pdhg,admm')
+    return []
+
+
+def family_ref_fista(ctx, r, exact, n, opaque=False):
+    """ISTA as documented in the Notes of proximal_gradient, FISTA as published in [Beck2009]
+    (4.1)-(4.3) (the docstring names the method and cites it):
+    x_k = prox_{gamma f}(y_k - gamma grad g(y_k)); t_{k+1} = (1 + sqrt(1 + 4 t_k^2)) / 2;
+    y_{k+1} = x_k + (t_k - 1) / t_{k+1} (x_k - x_{k-1}); recomputed with the real proximal and
+    gradient operators, out of place."""
+    import odl
+    S = odl.solvers
+    d = r.randint(1, 4)
+    space = odl.rn(d) if r.random() < 0.7 else odl.uniform_discr(0, d, d)
+    F = sl.functional_zoo(r, space, exact=False)
+    G = sl.functional_zoo(r, space, smooth=True, exact=False)
+    gamma = sl.pick_step(r, False)
+    lam = r.choice([1.0, 0.5, 1.5])
+    x0 = sl.dy_vec(r, d, 16, 8)
+    n = r.randint(2, 10)
+    p = dict(solver='ref_fista', opkind='space', x0=x0, fk=F.name, gk=G.name, gamma=gamma, lam=lam,
+             cseed=r.cseed)
+    pf, gg = F.f.proximal(gamma), G.f.gradient
+    # FISTA
+    x = unflat(space, x0)
+    rec = Recorder()
+    st, _ = guarded(S.accelerated_proximal_gradient, x, F.f, G.f, gamma, n, callback=rec)
+    xk, yk, t, ref = unflat(space, x0), unflat(space, x0), 1.0, []
+    for _ in range(n):
+        xn = pf(yk - gamma * gg(yk))
+        tn = (1 + np.sqrt(1 + 4 * t * t)) / 2
+        yk = xn + (t - 1) / tn * (xn - xk)
+        xk, t = xn, tn
+        ref.append(flat(xk).copy())
+    if st != 'ok':
+        viol(ctx, 'accelerated_proximal_gradient raises f={} g={}'.format(F.name, G.name), st, p, n=n)
+    else:
+        seq_vs_reference(ctx, 'accelerated_proximal_gradient differs from FISTA [Beck2009] (4.1)-(4.3) '
+                         'f={} g={}'.format(F.name, G.name), p, rec.iterates, ref, n=n)
+    # ISTA with relaxation
+    x = unflat(space, x0)
+    rec = Recorder()
+    st, _ = guarded(S.proximal_gradient, x, F.f, G.f, gamma, n, callback=rec, lam=lam)
+    xk, ref = unflat(space, x0), []
+    for _ in range(n):
+        xk = (1 - lam) * xk + lam * pf(xk - gamma * gg(xk))
+        ref.append(flat(xk).copy())
+    if st != 'ok':
+        viol(ctx, 'proximal_gradient raises f={} g={}'.format(F.name, G.name), st, p, n=n)
+    else:
+        seq_vs_reference(ctx, 'proximal_gradient differs from the documented iteration (1-lam) x + lam '
+                         'prox(x - gamma grad g(x)) f={} g={}'.format(F.name, G.name), p,
+                         rec.iterates, ref, n=n)
+    ctx.case(('reference', 'fista+ista', F.name, G.name, lam))
+    ctx.hit('reference/fista,ista')
+    return []
+
+
+def family_fista_rate(ctx, r, exact, n, opaque=False):
+    """Badly conditioned LASSO min lam |x|_1 + 1/2 |Ax - b|^2, gamma = 1/|A|^2.  Beck-Teboulle
+    ([Beck2009], cited by the docstring): F(x_k) - F* <= 2 |x0 - x*|^2 / (gamma (k+1)^2) for
+    FISTA, F(x_k) - F* <= |x0 - x*|^2 / (2 gamma k) for ISTA; F*, x* from a long numpy run."""
+    import odl
+    S = odl.solvers
+    d, m = r.randint(2, 4), r.randint(2, 4)
+    A = sl.small_int_matrix(r, m, d) * np.array([2.0 ** (-2 * j) for j in range(d)])[None, :]
+    b = sl.dy_vec(r, m, 16, 8)
+    lam = r.choice([0.0625, 0.25, 0.015625])
+    gamma = 1.0 / smax(A) ** 2
+    x0 = sl.dy_vec(r, d, 16, 4) * 4
+    p = dict(solver='fista_rate', opkind='{}x{}'.format(m, d), x0=x0, fk='a_l1', gk='lsq',
+             gamma=gamma, cseed=r.cseed)
+
+    def Fv(v):
+        return lam * np.abs(v).sum() + 0.5 * np.sum((A.dot(v) - b) ** 2)
+    # high-accuracy reference: numpy FISTA with restart, many iterations
+    v = x0.copy()
+    yv, t = v.copy(), 1.0
+    best = (Fv(v), v.copy())
+    for k in range(20000):
+        vn = soft(yv - gamma * A.T.dot(A.dot(yv) - b), gamma * lam)
+        tn = (1 + np.sqrt(1 + 4 * t * t)) / 2
+        if (yv - vn).dot(vn - v) > 0:      # gradient restart
+            tn, yn = 1.0, vn.copy()
+        else:
+            yn = vn + (t - 1) / tn * (vn - v)
+        v, yv, t = vn, yn, tn
+        fv = Fv(v)
+        if fv < best[0]:
+            best = (fv, v.copy())
+    Fs, xs = best
+    R2 = float(np.sum((x0 - xs) ** 2)) + 1e-12
+    Aop = odl.MatrixOperator(A)
+    f = lam * S.L1Norm(Aop.domain)
+    g = 0.5 * S.L2NormSquared(Aop.range).translated(b) * Aop
+    K = 300
+    for name, solver, bound in (
+            ('accelerated_proximal_gradient', S.accelerated_proximal_gradient,
+             lambda k: 2 * R2 / (gamma * (k + 1) ** 2)),
+            ('proximal_gradient', S.proximal_gradient, lambda k: R2 / (2 * gamma * k))):
+        x = unflat(Aop.domain, x0)
+        rec = Recorder()
+        st, _ = guarded(solver, x, f, g, gamma, K, callback=rec)
+        if st != 'ok':
+            viol(ctx, name + ' raises on a LASSO problem', st, p)
+            continue
+        for k, v in enumerate(rec.iterates, 1):
+            gap = Fv(v) - Fs
+            if not gap <= bound(k) * (1 + 1e-9) + 1e-9 * (1 + abs(Fs)):
+                viol(ctx, '{} violates its convergence rate on an ill-conditioned LASSO'.format(name),
+                     'F(x_{k}) - F* = {g} > bound {b} (F* = {f}, |x0-x*|^2 = {r2}, gamma = 1/|A|^2)'
+                     .format(k=k, g=gap, b=bound(k), f=Fs, r2=R2), p, A=A.tolist(), b=b.tolist(),
+                     lam=lam)
+                break
+    ctx.case(('test', 'fista_rate', p['opkind'], lam))
+    ctx.hit('test/FISTA-ISTA rate bounds')
+    return []
+
+
+def tie_kaczmarz_random(ctx, r):
+    """kaczmarz(random=True) against the model sweep `stepOrd` with the permutations numpy drew."""
+    from odl.solvers import kaczmarz
+    p = c11.gen_kaczmarz(r, True)
+    p.update(cseed=r.cseed, exact=True, opaque=False)
+    ops = p['ops']
+    n = r.randint(1, 4)
+    npseed = r.randint(0, 2 ** 31 - 1)
+    np.random.seed(npseed)
+    orders = [list(np.random.permutation(range(p['m']))) for _ in range(n)]
+    np.random.seed(npseed)
+    x = unflat(ops[0].domain, p['x0'])
+    rec = Recorder()
+    st, _ = guarded(kaczmarz, ops, x, [unflat(o.range, b) for o, b in zip(ops, p['rhs'])], n,
+                    omega=p['omega'], projection=p['proj'], callback=rec, callback_loop=p['cb'],
+                    random=True)
+    mats = [c11.wire_op(o) for o in ops]
+    rid = [min(i for i in range(p['m']) if ops[i].range == o.range) for o in ops]
+    om = p['omega'] if isinstance(p['omega'], list) else [p['omega']] * p['m']
+    fields = ' '.join('A{0}={1} At{0}={2} rhs{0}={3}'.format(
+        i, fmat(mats[i][0]), fmat(mats[i][1]), fl(p['rhs'][i])) for i in range(p['m']))
+    line = 'kaczmarz m={} {} omega={} proj={} rid={} cb={} x0={} n={} orders={}'.format(
+        p['m'], fields, fl(om), p['pspec'], ','.join(map(str, rid)), p['cb'], fl(p['x0']), n,
+        ';'.join(','.join(str(int(i)) for i in o) for o in orders))
+    ctx.hit('model/c11-tie/kaczmarz(random order)')
+    nt = st == 'ok' and c11.nontrivial(rec.iterates, p['x0'])
+    return [Case(desc_of(p, n=n, random=True, npseed=npseed),
+                 ('model', 'kaczmarz-random', p['opkind'], p['pspec'], p['cb'], n) if nt else None,
+                 line, st, rec.iterates)]
+
+
 FAMILIES = {
     'cg': family_cg, 'cgn': family_cgn, 'steepestbt': family_steepestbt,
     'linesearch': family_linesearch, 'power': family_power, 'dr': family_dr, 'fbpd': family_fbpd,
@@ -658,8 +1153,11 @@ FAMILIES = {
     'landweber_mono': family_landweber_mono, 'kaczmarz_mono': family_kaczmarz_mono,
     'optimality': family_optimality, 'proxgrad_descent': family_proxgrad_descent,
     'f12': family_f12,
+    'ref_kaczmarz': family_ref_kaczmarz, 'ref_osmlem': family_ref_osmlem,
+    'optimality_multi': family_optimality_multi,
+    'ref_pdhg': family_ref_pdhg, 'ref_fista': family_ref_fista, 'fista_rate': family_fista_rate,
 }
-SLOW = {'optimality': 0.15, 'proxgrad_descent': 0.25, 'f12': 0.08}
+SLOW = {'optimality': 0.15, 'optimality_multi': 0.15, 'proxgrad_descent': 0.15, 'f12': 0.05, 'fista_rate': 0.05}
 C11_TIE = ('landweber', 'kaczmarz', 'pdhg', 'admm', 'proxgrad')
 
 
@@ -746,6 +1244,8 @@ def run(ctx, deep=False):
                                     ctx.rng.randint(1, 5 if exact else 8), opaque=False)
             tie.extend(got)
             ctx.hit('model/c11-tie/' + fam)
+    for i in range(12 if ctx.quick and not deep else 40):
+        tie.extend(tie_kaczmarz_random(ctx, SeededRandom(ctx.rng.getrandbits(48))))
     outs = core.run_driver('C11', [c.line for c in tie])
     for c, ans in zip(tie, outs):
         compare(ctx, c, ans)
